@@ -95,6 +95,11 @@ def kinds():
     def nested(span):
         return Lk({'x': Traced(span, c=0.5, G=1.0)})
 
+    def nested_first(span):
+        # a linker whose first submodel is itself a linker, followed by plain models (insertion order is part of what is observable)
+        inner = Lk({'p': Simple(span, c=0.5, G=2.0), 'q': Simple(span, c=0.75, G=3.0)})
+        return Lk({'bloc': inner, 'us': Simple(span, c=0.25, G=5.0), 7: Lead(span, X=1.0)})
+
     class Lk0(fsic.BaseLinker):
         pass
 
@@ -108,7 +113,7 @@ def kinds():
         return Simple(span, dtype=[np.float32, int, 'float32'][k], c=1, G=10 if shared is None else shared)
 
     return {'model-dtype': model_dtype, 'linker-empty': empty_linker, 'container': container, 'model': model(Simple), 'aliased': model(Aliased), 'traced': model(Traced), 'mixins': model(Both),
-            'linker': linker, 'linker-traced-submodel': nested}
+            'linker': linker, 'linker-traced-submodel': nested, 'linker-nested-first': nested_first}
 
 
 def spans(rng):
